@@ -690,6 +690,18 @@ class Interp(object):
         pool = dedupe(list(a) + list(b) + list(self.candidates))
         ka = set(c.row(self.integer) for c in a)
         kb = set(c.row(self.integer) for c in b)
+        # a variable given different values on the two sides (x = p on one,
+        # x = q on the other): its sign survives the join when both sides
+        # entail it, though neither states it
+        va = set(x for c in a if c.row(self.integer) not in kb
+                 for x in c.p.atoms())
+        vb = set(x for c in b if c.row(self.integer) not in ka
+                 for x in c.p.atoms())
+        for x in sorted(va & vb):
+            if "(" in x:
+                continue
+            pool.append(le(1, Poly.atom(x)))
+            pool.append(le(0, Poly.atom(x)))
         for c in pool:
             r = c.row(self.integer)
             if (r in ka or self.entails_state(a, c)) and \
